@@ -60,6 +60,9 @@ def main():
         mod.run(ctx)
     except Exception as e:  # harness crash = broken tie, never silently OK
         broken.append("harness exception: %r\n%s" % (e, traceback.format_exc()[-1500:]))
+    if ctx.corr_fail and os.environ.get("VERIF_DUMP_CORR"):
+        for c in ctx.corr_fail[:int(os.environ["VERIF_DUMP_CORR"])]:
+            print("  corr-dump: " + json.dumps(c, default=str))
     if ctx.corr_fail:
         broken.append("correspondence: %d of %d comparisons differ; first: %s" % (
             len(ctx.corr_fail), ctx.corr_total, json.dumps(ctx.corr_fail[0], default=str)[:600]))
